@@ -139,15 +139,28 @@ def fills(shape, nfills, rnd):
         for idx in range(len(t)):
             res.append(concretise(shape, lambda s, kk, tt, j, idx=idx: idx))
         return res
-    if len(shape) == 1 and len(sl) == 1 and sl[0][3] == 2:
-        # a lone extended event with two elements: pairs of table entries
-        _, k, ty, _ = sl[0]
+    two = [x for x in sl if x[3] == 2]
+    if len(two) == 1 and len(shape) <= 3:
+        # an extended event with two elements (alone or next to one or two plain events): pairs of table entries
+        target_slot = sl.index(two[0])
+        _, k, ty, _ = two[0]
         t = table(k, ty if k == "int" else k)
         pairs = [(a, b) for a in range(len(t)) for b in range(len(t))]
         if nfills < 3:
-            pairs = rnd.sample(pairs, min(len(pairs), 48))
+            if k == "int":
+                # one representative per (sign, width class): every ordered pair of classes
+                reps = {}
+                for idx, c in enumerate(t):
+                    n = int.from_bytes(bytes(c[1:]), "big")
+                    bl = n.bit_length()
+                    cls = (c[0], 0 if bl <= 7 else 8 if bl == 8 else 15 if bl <= 15 else 16 if bl == 16 else 31 if bl <= 31 else 32 if bl == 32 else 63 if bl <= 63 else 64)
+                    reps.setdefault(cls, idx)
+                r = sorted(reps.values())
+                pairs = [(a, b) for a in r for b in r]
+            else:
+                pairs = rnd.sample(pairs, min(len(pairs), 48))
         for a, b in pairs:
-            res.append(concretise(shape, lambda s, kk, tt, j, a=a, b=b: a if j == 0 else b))
+            res.append(concretise(shape, lambda s, kk, tt, j, a=a, b=b: (a if j == 0 else b) if s == target_slot else s + 1))
         return res
     if any(x[3] >= 2 for x in sl):
         nfills *= 3
